@@ -277,4 +277,17 @@ class SelectShim:
             s = self.net.fds.get(fd)
             if s is not None and s.readable():
                 out.append(fd)
+        if not out and timeout is None and rlist:
+            # a select() without timeout blocks until something is readable
+            self.blocked_forever(rlist)
+            return self.select(rlist, wlist, xlist, timeout)
         return out, [], []
+
+    def blocked_forever(self, rlist):
+        """Default (single-threaded history): jump to the next network event, or report a hang."""
+        nxt = self.net.next_event_time()
+        if nxt is None:
+            self.net.count('select_would_block_forever')
+            raise SimAbort()
+        self.net.clock.now = max(self.net.clock.now, nxt)
+        self.net.pump()
